@@ -47,9 +47,25 @@ def gen_cases(tier, seed):
         from vf.gen import recipes
         for i in range(60 if tier == "quick" else 1500):
             cases.append({"id": "X/%d/%d" % (seed, i), "src": "refpq", "recipe": recipes.random_recipe(rng, flat=True), "oseed": int(rng.integers(0, 2 ** 31))})
+        # files of another writer in which LIST / MAP columns (several chunks each) come before flat ones
+        for i in range(30 if tier == "quick" else 600):
+            rec = recipes.random_recipe(rng, flat=True)
+            nested = [{"seed": int(rng.integers(0, 2 ** 31)), "kind": ["LIST", "MAP"][int(rng.integers(0, 2))], "prim": ["i32", "i64", "utf8"][int(rng.integers(0, 3))],
+                       "key_prim": "utf8", "top_optional": bool(rng.integers(0, 2)), "elem_optional": bool(rng.integers(0, 2)), "max_len": 3,
+                       "p_null_row": 0.3, "p_null_elem": 0.3, "p_empty": 0.2, "page_values": [10 ** 9], "page_version": 1, "use_dict": False, "long_rows": False}
+                      for _ in range(int(rng.integers(1, 3)))]
+            cases.append({"id": "XN/%d/%d" % (seed, i), "src": "refpq", "recipe": rec, "nested_first": nested, "oseed": int(rng.integers(0, 2 ** 31))})
     except ImportError:
         pass
     return cases
+
+
+def _plain_int_or_bool(d):
+    """Is d a numpy integer / unsigned / boolean dtype (which has no representation for a missing value)?"""
+    try:
+        return isinstance(d, np.dtype) and d.kind in "iub" or (isinstance(d, (str, type)) and np.dtype(d).kind in "iub")
+    except TypeError:
+        return False
 
 
 def _dtype_matches(pred, actual):
@@ -76,6 +92,7 @@ def run_case(case):
     res = {"features": [], "nontrivial": False, "failures": [], "counters": counters}
     path = None
     cleanup = False
+    recipe_nulls = None
     try:
         if case["src"] in ("c01", "c08"):
             df = D.build_dataset_frame(case) if case["src"] == "c08" else F.build_frame(case["frame"])
@@ -93,7 +110,25 @@ def run_case(case):
             from vf.gen import recipes as RC
             path = C.fresh_path(".parq")
             cleanup = True
-            RC.write_recipe(case["recipe"], path)
+            if case.get("nested_first"):
+                from vf.props import c15
+                from vf.ref import writer as W_
+                spec, _exp = RC.make_spec(case["recipe"])
+                recipe_nulls = {k_: any(v_ is None for v_ in cells_) for k_, cells_ in _exp.items()}
+                ncols = []
+                for j_, sub in enumerate(case["nested_first"]):
+                    sp1, _rows = c15.make(dict(sub, row_groups=case["recipe"]["row_groups"], codec=case["recipe"]["codec"]))
+                    sp1["columns"][0]["name"] = "n%d" % j_
+                    sp1["columns"][0]["write_stats"] = bool((case["oseed"] + j_) % 3)     # mostly with a Statistics struct (which says nothing about nulls)
+                    ncols.append(sp1["columns"][0])
+                spec["columns"] = ncols + spec["columns"]
+                data_, _fmd = W_.build_file(spec)
+                with open(path, "wb") as f_:
+                    f_.write(data_)
+                counters["files_with_nested_columns_before_flat_ones"] = 1
+            else:
+                _exp, _ = RC.write_recipe(case["recipe"], path)
+                recipe_nulls = {k_: any(v_ is None for v_ in cells_) for k_, cells_ in _exp.items()}
         else:
             path = case["path"]
         rng = np.random.default_rng([case["oseed"], 3])
@@ -107,6 +142,14 @@ def run_case(case):
                 counters["open_failed"] = 1
                 res["reject"] = C.exc_shape(e)
                 return res
+            if recipe_nulls is not None:
+                # the recipe knows which columns hold NULLs: a plain integer / boolean prediction for one of them cannot be what a read gives
+                for c_, has_ in recipe_nulls.items():
+                    if has_ and c_ in pf.dtypes and _plain_int_or_bool(pf.dtypes[c_]):
+                        res["failures"].append({"kind": "predicted_dtype_cannot_hold_the_missing_values_of_the_column", "column": c_, "predicted": str(pf.dtypes[c_]),
+                                                "default_read_dtype": None, "declared_required": False, "opts": {}, "pandas_nulls": pandas_nulls, "src": case["src"],
+                                                "known_from": "recipe"})
+                counters["recipe_null_columns_checked"] = counters.get("recipe_null_columns_checked", 0) + sum(1 for v_ in recipe_nulls.values() if v_)
             allcols = list(pf.columns) + list(pf.cats)
             filecols = list(pf.columns)
             catcols = list(pf.categories) if isinstance(pf.categories, (dict, list)) else []
@@ -139,6 +182,7 @@ def run_case(case):
             # the default read again at the end, on the same handle: answers must not depend on what was asked before
             optsets.append({"_repeat_default": True})
             first_default = {}
+            default_frame = None
             for o in optsets:
                 repeat = bool(o.get("_repeat_default"))
                 o = {k_: v_ for k_, v_ in o.items() if k_ != "_repeat_default"}
@@ -170,6 +214,16 @@ def run_case(case):
                 except Exception as e:
                     res["failures"].append({"kind": "prediction_raised", "opts": o, **C.exc_shape(e)})
                     continue
+                if default_frame is not None and "dtypes" not in o:
+                    # a prediction the data cannot have: a plain (non-nullable) integer / boolean dtype for a column that holds missing
+                    # values (decided against the default read of the same handle; the read with these options need not even succeed)
+                    for c_, d_ in pred_dt.items():
+                        if c_ in default_frame.columns and _plain_int_or_bool(d_) and bool(default_frame[c_].isna().any()):
+                            res["failures"].append({"kind": "predicted_dtype_cannot_hold_the_missing_values_of_the_column", "column": str(c_), "predicted": str(d_),
+                                                    "default_read_dtype": str(default_frame[c_].dtype), "opts": {k_: v_ for k_, v_ in o.items()},
+                                                    "declared_required": next((e_.repetition_type == 0 for e_ in pf.schema.schema_elements if e_.name == c_), None),
+                                                    "pandas_nulls": pandas_nulls, "src": case["src"]})
+                    counters["predictions_checked_against_missing_values"] = counters.get("predictions_checked_against_missing_values", 0) + 1
                 try:
                     if isinstance(got_first, Exception):
                         raise got_first
@@ -185,6 +239,7 @@ def run_case(case):
                     sig = ([str(c) for c in got.columns], [str(d) for d in got.dtypes], {k_: str(v_) for k_, v_ in pred_dt.items()})
                     if not repeat:
                         first_default = sig
+                        default_frame = got.reset_index() if [n_ for n_ in got.index.names if n_ is not None] else got
                     else:
                         counters["default_reads_repeated"] = counters.get("default_reads_repeated", 0) + 1
                         if first_default and sig != first_default:
@@ -289,6 +344,28 @@ def _edited_handle(path, df, res, counters):
         try:
             if step == "write_row_groups":
                 data = reset_row_idx(df) if pf._get_index() else df
+                # categorical columns of the appended batch carry labels the dataset has not seen yet
+                import pandas as pd
+                grown = []
+                for c_ in list(data.columns):
+                    dt_ = data[c_].dtype
+                    if isinstance(dt_, pd.CategoricalDtype) and len(data) and c_ not in pf.cats:
+                        cats_ = list(dt_.categories)
+                        try:
+                            extra_ = [str(x) + "_new%d" % k_ for k_, x in enumerate(cats_[:2] or ["l"])] if all(isinstance(x, str) for x in cats_) else \
+                                [max(cats_) + 1 + k_ for k_ in range(2)] if cats_ else []
+                            if extra_ and not set(extra_) & set(cats_):
+                                if not grown:
+                                    data = data.copy()
+                                col_ = data[c_].cat.add_categories(extra_)
+                                col_.iloc[0] = extra_[0]
+                                col_.iloc[-1] = extra_[-1]
+                                data[c_] = col_
+                                grown.append(str(c_))
+                        except Exception:
+                            pass
+                if grown:
+                    counters["edited_handle_appends_with_new_categories"] = counters.get("edited_handle_appends_with_new_categories", 0) + 1
                 pf.write_row_groups(data, row_group_offsets=[0, max(1, len(data) // 2)] if len(data) > 1 else None)
             else:
                 if pf.file_scheme == "simple" or len(pf.row_groups) < 2:
@@ -314,6 +391,14 @@ def _edited_handle(path, df, res, counters):
         except Exception as e:
             counters["edited_handle_read_raised"] = counters.get("edited_handle_read_raised", 0) + 1     # C07's business
             return
+        try:
+            ncat = dict(pf.categories or {})
+            for c_, n_ in ncat.items():
+                if c_ in got.columns and hasattr(got[c_].dtype, "categories") and isinstance(n_, int) and len(got[c_].dtype.categories) > n_:
+                    res["failures"].append({"kind": "more_categories_read_than_the_handle_reports", "step": step, "column": str(c_), "reported": n_,
+                                            "read": len(got[c_].dtype.categories)})
+        except Exception:
+            pass
         if len(got) != kept["count"] or sum(kept["rg_rows"]) != kept["count"] or kept["info_rows"] != kept["count"]:
             res["failures"].append({"kind": "edited_handle_count_prediction", "step": step, "predicted": [kept["count"], sum(kept["rg_rows"]), kept["info_rows"]], "got": len(got)})
         if [str(c) for c in got.columns] != [str(c) for c in got_f.columns] or [str(d) for d in got.dtypes] != [str(d) for d in got_f.dtypes]:
@@ -323,4 +408,4 @@ def _edited_handle(path, df, res, counters):
 
 
 def required(tier):
-    return {"optionsets_compared": 1500, "dtype_predictions": 5000, "pandas_nulls_false_compared": 500, "row_group_parts_predicted": 300, "reads_with_dtypes_mapping": 200, "edited_handle_steps_compared": 150}
+    return {"optionsets_compared": 1500, "dtype_predictions": 5000, "pandas_nulls_false_compared": 500, "row_group_parts_predicted": 300, "reads_with_dtypes_mapping": 200, "edited_handle_steps_compared": 150, "files_with_nested_columns_before_flat_ones": 15, "edited_handle_appends_with_new_categories": 15}
